@@ -1,9 +1,11 @@
 SPECIFICATION Spec
 CONSTANTS
   CID = {"c1"}
-  EXCH = {"x1", "x2"}
+  EXCH = {"d0", "x1", "x2"}
+  TRADED = {"x1", "x2"}
   MaxSends = 2
   MaxKills = 2
-INVARIANTS TypeOK AtMostOnce InFlightBacked Routed ConnMatchesLinks
-PROPERTIES Resolved Noticed Synced
+  MaxMkt = 0
+INVARIANTS TypeOK AtMostOnce InFlightBacked Routed ConnMatchesLinks DataOnlyAccountDown NeverGloballyHealthy
+PROPERTIES Resolved Noticed Synced OnDisconnectExact
 CHECK_DEADLOCK FALSE
